@@ -115,11 +115,47 @@ def accessor_test(S):
                     tn = ty[0].upper() + ty[1:].lower()
                     item = "%s__%s" % (tn, td["items"][-1].lower())
                     body.append('  %s->%s( %s ); if( %s->%s() != %s ) { printf("ACCESSOR %s.%s\\n"); bad++; }' % (var, an, item, var, an, item, e["name"], a["name"]))
+        # the same through the attribute list (what STEPwrite prints), for own and inherited attributes: the value a mutator
+        # stores must be the value the instance writes.  "first" = reached through first supertypes only (C++ inheritance).
+        def walk(en, first, acc, seen):
+            ent = S.entity(en)
+            for i_, s_ in enumerate(ent["supers"]):
+                walk(s_, first and i_ == 0, acc, seen)
+            if en not in seen:
+                seen.add(en)
+                for a_ in ent["attrs"]:
+                    acc.append((en, a_, first))
+        inh = []
+        walk(e["name"], True, inh, set())
+        names = [a_["name"].lower() for (_o, a_, _f) in inh]
+        for k_, (owner, a, first) in enumerate(inh):
+            if names.count(a["name"].lower()) > 1:
+                continue            # the same name from two supertypes: which one an accessor means is another finding
+            an = a["name"].lower() + "_"
+            ty = a["type"]
+            root = ty if ty in SIMPLE else (type_root(S, ty) if not re.match(r"^(LIST|SET|BAG|ARRAY) ", ty) and not any(q["name"] == ty for q in S.entities) else None)
+            tag = "%s.%s.%s.%s" % (e["name"], owner, a["name"], "first" if first else "other")
+            if root == "INTEGER":
+                body.append('  %s->%s( 77 + %d ); if( attr_text( %s, "%s" ) != "%d" ) { printf("ACCLIST %s %%s\\n", attr_text( %s, "%s" ).c_str() ); bad++; }' % (
+                    var, an, k_, var, a["name"].lower(), 77 + k_, tag, var, a["name"].lower()))
+            elif root == "REAL":
+                body.append('  %s->%s( 6.5 ); if( attr_text( %s, "%s" ) != "6.5" ) { printf("ACCLIST %s %%s\\n", attr_text( %s, "%s" ).c_str() ); bad++; }' % (
+                    var, an, var, a["name"].lower(), tag, var, a["name"].lower()))
         if body:
             out.append("  %s * %s = new %s;" % (cls, var, cls))
             out += body
             n += 1
     out += ['  printf("ACCESSORS %d classes bad %d\\n", ' + str(n) + ", bad );", "  return bad ? 1 : 0;", "}"]
+    helper = ['#include <strings.h>', '#include "clstepcore/STEPattribute.h"',
+              'static std::string attr_text( SDAI_Application_instance * inst, const char * nm ) {',
+              '  for( int k = 0; k < inst->attributes.list_length(); k++ ) {',
+              '    STEPattribute & a = inst->attributes[k];',
+              '    if( !strcasecmp( a.Name(), nm ) && a.aDesc->AttrType() != AttrType_Redefining ) { std::string s_; a.asStr( s_ ); return s_; }',
+              '  }',
+              '  return "<no such attribute>";',
+              '}']
+    i_main = out.index("int main() {")
+    out = out[:i_main] + helper + out[i_main:]
     return "\n".join(out) + "\n", n
 
 
@@ -161,11 +197,15 @@ FIXED_INST = {
     "base_q": "qn", "sub_q": "qn,extra", "base_p": "tag,load",
     "narrow_p": "tag,load,base_p.load,more", "narrow_last": "tag,load,own,base_p.load",
     "derive_p": "tag*,load", "both_p": "tag*,load,base_p.load,more",
-    "vehicle": "wheels", "car": "wheels", "truck": "wheels", "electric": "wheels,volts", "duck": "wheels",
+    "unbounded": "a,b,c", "vehicle": "wheels", "car": "wheels", "truck": "wheels", "electric": "wheels,volts", "duck": "wheels",
 }
 FIXED_ENTS = [("base_q", []), ("sub_q", ["base_q"]), ("base_p", []), ("narrow_p", ["base_p"]), ("narrow_last", ["base_p"]),
               ("derive_p", ["base_p"]), ("both_p", ["narrow_p"]), ("vehicle", []), ("car", ["vehicle"]), ("truck", ["vehicle"]),
-              ("electric", ["vehicle"]), ("amphibian", ["vehicle"]), ("duck", ["amphibian"])]
+              ("electric", ["vehicle"]), ("amphibian", ["vehicle"]), ("duck", ["amphibian"]), ("unbounded", [])]
+# bounds of aggregates declared without them, as harness/h_dict.cc prints them
+FIXED_BOUNDS = {("unbounded", "a"): "aggr=LIST b1=unset b2=unset", ("unbounded", "c"): "aggr=BAG b1=unset b2=unset",
+                ("unbounded", "b"): "aggr=LIST b1=0 b2=2147483647"}
+FIXED_INNER = {("unbounded", "b"): "[ aggr=SET b1=unset b2=unset"}
 FIXED_KINDS = {("narrow_p", "base_p.load"): "redefining", ("narrow_last", "base_p.load"): "redefining",
                ("derive_p", "base_p.tag"): "derived", ("both_p", "base_p.tag"): "derived"}
 
@@ -177,9 +217,16 @@ def fixed_schema_problems(bdir):
     if not sl["ok"]:
         return ["the code exp2cxx emits for schemas/c02_fixed.exp does not compile: %s" % sl["log"][-300:]]
     exe = schema_harness(bdir, sl, "h_dict")
-    rc, out, err = sh([exe], timeout=120)
+    rc, out, err = sh([exe], timeout=120, env={"MALLOC_PERTURB_": "165"})
     if rc != 0:
         return ["h_dict dies on schemas/c02_fixed.exp (status %d)" % rc]
+    for l in out.split("\n"):
+        p_ = l.split()
+        if p_[:1] == ["ATTR"] and len(p_) >= 3:
+            for table in (FIXED_BOUNDS, FIXED_INNER):
+                want = table.get((p_[1], p_[2]))
+                if want and want not in l:
+                    out_.append("c02_fixed: attribute %s.%s: the dictionary says '%s', the schema gives '%s'" % (p_[1], p_[2], " ".join(p_[6:])[:120], want))
     inst, kinds = {}, {}
     for l in out.split("\n"):
         p_ = l.split()
@@ -278,7 +325,9 @@ def main(tier, seed):
             bad("the code exp2cxx emits for a valid schema does not compile: %s" % sl["log"][-400:], sigc)
         else:
             exe = schema_harness(bdir, sl, "h_dict")
-            rc, out, err = sh([exe], timeout=120)
+            # fresh heap memory is filled with a non-zero byte: a descriptor field the generated code never sets shows as garbage
+            # instead of passing for "unset" by the luck of a zeroed page
+            rc, out, err = sh([exe], timeout=120, env={"MALLOC_PERTURB_": "165"})
             if rc != 0:
                 bad("h_dict dies (status %d): %s" % (rc, err[-200:]))
             ents, order, types = parse_dump(out)
@@ -422,6 +471,12 @@ def main(tier, seed):
                     for line in o.split("\n"):
                         if line.startswith("ACCESSOR "):
                             bad("accessor of %s does not read back what its mutator stored" % line.split()[1])
+                        elif line.startswith("ACCLIST "):
+                            ent_, owner_, attr_, path_ = line.split()[1].split(".")
+                            hist["acclist_" + path_] = hist.get("acclist_" + path_, 0)
+                            bad("the mutator %s_() of a %s (attribute of %s) stores a value the instance does not write: its attribute list shows %s" % (
+                                attr_.lower(), ent_, owner_, " ".join(line.split()[2:]) or "nothing"),
+                                "second_supertype_accessors_shadow" if path_ == "other" else None)
                     if rc not in (0, 1):
                         bad("the accessor test program dies (status %d)" % rc)
             except Exception as ex:  # noqa
